@@ -30,7 +30,8 @@ ASSUMPTIONS = [
     "N bounded: quick 1..4, thorough 1..6; larger N only in the bounded native check (N <= 60)",
 ]
 TRUSTED_BASE = ["numpy argsort / fancy indexing executed natively on object arrays"]
-BOUNDS = {"N_quick": [1, 4], "N_thorough": [1, 6], "native_N": 60}
+BOUNDS = {"N_quick": [1, 4], "N_thorough": [1, 6], "native_N": 60,
+          "representations": "float32/int64/int32/uint8 arrays, strided and reversed views, int / numpy-scalar Pt, noise, Es on 8 gain vectors x 5 budgets"}
 DOWF = "pyphysim.comm.waterfilling:doWF"
 
 
